@@ -5,7 +5,6 @@ import (
 	"encoding/hex"
 	"encoding/json"
 	"fmt"
-	"net"
 	"net/http"
 	"net/http/httptest"
 	"os"
@@ -175,6 +174,53 @@ func (w *wrapSvc) lastTagged() string {
 	return w.tagged[len(w.tagged)-1]
 }
 
+// caller is what a client of the gRPC side calls.
+type caller interface {
+	TryLock(ctx context.Context, r *pb.TryLockRequest) (*pb.LockResponse, error)
+	Unlock(ctx context.Context, r *pb.UnlockRequest) (*pb.UnlockResponse, error)
+	Renew(ctx context.Context, r *pb.RenewRequest) (*pb.LockResponse, error)
+}
+
+// grpcFront is the gRPC transport in front of one LockServer (grpc_on.go: the real grpc.Run over an in-memory
+// listener; grpc_off.go: the Service object called directly).
+type grpcFront struct {
+	// connect opens a client connection: the caller, the context to call with, the server session id of the
+	// connection, and the function that closes it (ConnEnd delivered before it returns)
+	connect func() (caller, context.Context, string, func(), error)
+	stop    func()
+}
+
+// recLS is the LockServer handed to the gRPC Service, observed: it records the session ids CreateSession draws.
+type recLS struct {
+	*server.LockServer
+	mu      sync.Mutex
+	created []string
+}
+
+func (r *recLS) CreateSession(ctx context.Context, info map[string]any) (string, context.Context) {
+	sid, ctx2 := r.LockServer.CreateSession(ctx, info)
+	r.mu.Lock()
+	r.created = append(r.created, sid)
+	r.mu.Unlock()
+	return sid, ctx2
+}
+
+func (r *recLS) count() int {
+	r.mu.Lock()
+	defer r.mu.Unlock()
+	return len(r.created)
+}
+
+// after returns the session id created since count() returned n ("" if none).
+func (r *recLS) after(n int) string {
+	r.mu.Lock()
+	defer r.mu.Unlock()
+	if len(r.created) > n {
+		return r.created[len(r.created)-1]
+	}
+	return ""
+}
+
 // side is one real LockServer with its transport.
 type side struct {
 	srv    *server.LockServer
@@ -185,7 +231,7 @@ type side struct {
 	handler http.Handler
 	hcloser func()
 	// gRPC
-	svc *grpcsvc.Service
+	front *grpcFront
 }
 
 type slot struct {
@@ -194,7 +240,8 @@ type slot struct {
 	sidR   string
 	made   bool
 	ctxG   context.Context
-	cancel context.CancelFunc
+	callG  caller
+	closeG func()
 	sidG   string
 	connG  bool
 }
@@ -211,7 +258,7 @@ type Exec struct {
 	cfg   Cfg
 	mode  string
 	R, G  side
-	M     *grpcsvc.Service // mode "mixed": the plain gRPC Service on the REST side's LockServer
+	M     *grpcFront // mode "mixed": the gRPC transport in front of the REST side's LockServer
 	start time.Time
 	slots map[int]*slot
 	keysR map[int]string
@@ -266,7 +313,10 @@ func bootGrpc(c Cfg, path string) (side, error) {
 		return s, err
 	}
 	s.srv, s.closer, s.path = srv, closer, path
-	s.svc = grpcsvc.NewService(srv)
+	if s.front, err = newGrpcFront(srv); err != nil {
+		closer()
+		return s, err
+	}
 	return s, nil
 }
 
@@ -569,10 +619,13 @@ func (x *Exec) Step(i int, ev Ev) {
 			return
 		}
 		if x.mode == "mixed" && ev.T == "grpc" {
-			ctx0 := x.M.TagConn(context.Background(), &stats.ConnTagInfo{RemoteAddr: &net.TCPAddr{IP: net.IPv4(127, 0, 0, 1)}})
-			ctx, cancel := context.WithCancel(ctx0)
-			gs, _ := x.R.srv.SessionId(ctx)
-			sl.tr, sl.ctxG, sl.cancel, sl.sidG, sl.connG = "grpc", ctx, cancel, gs, true
+			c, ctx, gs, cl, err := x.M.connect()
+			if err != nil {
+				x.emit("E grpc conn -")
+				x.emit("O rpcerror %s", hx(err.Error()))
+				return
+			}
+			sl.tr, sl.ctxG, sl.callG, sl.closeG, sl.sidG, sl.connG = "grpc", ctx, c, cl, gs, true
 			x.emit("E grpc conn %s", hx(gs))
 			x.stats["op_grpc_conn"]++
 			return
@@ -594,18 +647,19 @@ func (x *Exec) Step(i int, ev Ev) {
 		x.emitEnds()
 		x.stats["op_create"]++
 		if both {
-			ctx0 := x.G.svc.TagConn(context.Background(), &stats.ConnTagInfo{RemoteAddr: &net.TCPAddr{IP: net.IPv4(127, 0, 0, 1)}})
-			ctx, cancel := context.WithCancel(ctx0)
-			gs, _ := x.G.srv.SessionId(ctx)
-			sl.ctxG, sl.cancel, sl.sidG, sl.connG = ctx, cancel, gs, true
-			x.emit("G conn %s", hx(gs))
+			c, ctx, gs, cl, err := x.G.front.connect()
+			if err != nil {
+				x.emit("G conn -")
+				x.emit("P rpcerror %s", hx(err.Error()))
+			} else {
+				sl.ctxG, sl.callG, sl.closeG, sl.sidG, sl.connG = ctx, c, cl, gs, true
+				x.emit("G conn %s", hx(gs))
+			}
 		}
 	case "delete":
 		if sl := x.slot(ev.S); x.mode == "mixed" && sl.tr == "grpc" {
 			if sl.connG {
-				sl.cancel()
-				synctest.Wait()
-				x.M.HandleConn(sl.ctxG, &stats.ConnEnd{})
+				sl.closeG()
 				sl.connG = false
 				x.emit("E grpc disc %s", hx(sl.sidG))
 				x.stats["op_grpc_disc"]++
@@ -628,16 +682,14 @@ func (x *Exec) Step(i int, ev Ev) {
 			sl.made = false
 		}
 		if both && (ev.Ck == "" || ev.Ck == "own") && sl.connG {
-			sl.cancel()
-			synctest.Wait()
-			x.G.svc.HandleConn(sl.ctxG, &stats.ConnEnd{})
+			sl.closeG()
 			sl.connG = false
 			x.emit("G disc %s", hx(sl.sidG))
 		}
 	case "req":
 		if sl := x.slot(ev.S); x.mode == "mixed" && sl.tr == "grpc" {
 			if sl.connG && ev.Q != "noop" {
-				x.grpcCall(i, ev, sl, x.M, x.keysR, "E grpc", "O")
+				x.grpcCall(i, ev, sl, sl.callG, x.keysR, "E grpc", "O")
 				x.stats["op_grpc_"+ev.Q]++
 			}
 			return
@@ -714,7 +766,7 @@ func (x *Exec) Step(i int, ev Ev) {
 		x.emitEnds()
 		// the same abstract request over gRPC, on the connection that plays this session
 		if both && (ev.Ck == "" || ev.Ck == "own") && sl.connG {
-			x.grpcCall(i, ev, sl, x.G.svc, x.keysG, "G", "P")
+			x.grpcCall(i, ev, sl, sl.callG, x.keysG, "G", "P")
 		}
 	case "adv":
 		x.emit("E adv %d", ev.Dt)
@@ -753,7 +805,7 @@ func (x *Exec) Step(i int, ev Ev) {
 
 // grpcCall performs the request of ev on the gRPC Service svc with the connection context of sl and writes the
 // event line (prefix ePre) and its outputs (prefix oPre).
-func (x *Exec) grpcCall(i int, ev Ev, sl *slot, svc *grpcsvc.Service, keys map[int]string, ePre, oPre string) {
+func (x *Exec) grpcCall(i int, ev Ev, sl *slot, svc caller, keys map[int]string, ePre, oPre string) {
 	name := unhx(ev.Name)
 	key := x.resolveKey(ev.Key, keys)
 	switch ev.Q {
@@ -818,9 +870,19 @@ func (x *Exec) hang(ex exchange) bool {
 // Finish tears both servers down so that the bubble can end.
 func (x *Exec) Finish() {
 	for _, sl := range x.slots {
-		if sl.cancel != nil {
-			sl.cancel()
+		if sl.connG && sl.closeG != nil {
+			func() {
+				defer func() { recover() }()
+				sl.closeG()
+			}()
+			sl.connG = false
 		}
+	}
+	if x.M != nil {
+		x.M.stop()
+	}
+	if x.G.front != nil {
+		x.G.front.stop()
 	}
 	if x.R.hcloser != nil {
 		x.R.hcloser()
@@ -847,6 +909,10 @@ func RunHistory(h *History, stateDir string, curPath string, gen func(x *Exec, i
 	progTick.Add(1)
 	x := &Exec{cfg: h.Cfg, mode: h.Mode, slots: map[int]*slot{}, keysR: map[int]string{}, keysG: map[int]string{}, stats: map[string]int{}}
 	x.start = time.Now()
+	x.stats["grpc_front_real"] = 0
+	if grpcFrontIsReal {
+		x.stats["grpc_front_real"] = 1
+	}
 	head := []string{"H " + h.ID,
 		fmt.Sprintf("C %s %s %d %d %d %d", b01(h.Cfg.NoClear), b01(h.Cfg.File), h.Cfg.GcI, h.Cfg.GcM, h.Cfg.Dlt, h.Cfg.Tmo)}
 	var err error
@@ -854,7 +920,10 @@ func RunHistory(h *History, stateDir string, curPath string, gen func(x *Exec, i
 		return append(head, "B boot-error "+hx(err.Error()), "X"), x.stats, "boot: " + err.Error()
 	}
 	if h.Mode == "mixed" {
-		x.M = grpcsvc.NewService(x.R.srv)
+		if x.M, err = newGrpcFront(x.R.srv); err != nil {
+			x.Finish()
+			return append(head, "B boot-error "+hx(err.Error()), "X"), x.stats, "boot: " + err.Error()
+		}
 	}
 	if h.Mode == "c15" {
 		if x.G, err = bootGrpc(h.Cfg, pg); err != nil {
